@@ -249,9 +249,15 @@ impl Interval {
         } else if self.lower() == self.upper() {
             self.lower.tan().into()
         } else {
+            // There's a pole at every odd multiple of PI/2.  Comparing the
+            // endpoint values alone is not enough: for an interval whose
+            // width rounds to just below PI, tan(lower) == tan(upper).
+            let branch = |x: f32| {
+                (f64::from(x) / std::f64::consts::PI + 0.5).floor()
+            };
             let lower = self.lower.tan();
             let upper = self.upper.tan();
-            if upper >= lower {
+            if branch(self.lower) == branch(self.upper) && upper >= lower {
                 Interval::new(lower, upper)
             } else {
                 f32::NAN.into()
